@@ -116,9 +116,11 @@ Definition c_same_content (c : cache) (impl : list csent) : bool :=
 (* ================================================================================================================
    C08: what a white-box dump must satisfy.  A dump is what fw/table/zz_verif_pitcs.go reports.
    ================================================================================================================ *)
-Record dnode := mkdn { dn_path : name; dn_queued : list bool (* one flag per PIT entry: is it in the expiry queue *); dn_cs : bool }.
+Record dentry := mkde { de_q : bool (* in the expiry queue *); de_norec : bool (* no in- and no out-record left *); de_exp : Z }.
+Record dnode := mkdn { dn_path : name; dn_ents : list dentry (* one per PIT entry *); dn_cs : bool }.
+Definition dn_queued (d : dnode) : list bool := map de_q (dn_ents d).
 Record dump := mkdump {
-  d_npit : Z; d_ncs : Z; d_tok : Z; d_heap : Z; d_csmap : Z; d_lruq : list name; d_locs : Z; d_dnl : Z; d_dnlq : Z;
+  d_now : Z; d_npit : Z; d_ncs : Z; d_tok : Z; d_heap : Z; d_csmap : Z; d_lruq : list name; d_locs : Z; d_dnl : Z; d_dnlq : Z;
   d_nodes : list dnode }.
 
 Definition dn_busy (d : dnode) : bool := negb (is_nil (dn_queued d)) || dn_cs d.
@@ -130,7 +132,8 @@ Definition count_cs (l : list dnode) : Z := Z.of_nat (length (filter dn_cs l)).
    3 token map holds exactly the PIT entries   4 every PIT entry is in the expiry queue and the queue holds nothing else
    5 LRU queue and locations hold exactly the cached names
    6 every tree node lies on the path to a node with a PIT entry or a cached packet (no dead branch), tree is prefix closed
-   7 dead nonce map and its queue have the same size *)
+   7 dead nonce map and its queue have the same size
+   8 an entry with no record left (satisfied, or answered from the cache) is already due: removed by the next Update() *)
 Definition c08_always (d : dump) : list N :=
   (if d_npit d =? count_pit (d_nodes d) then [] else [1%N]) ++
   (if (d_ncs d =? count_cs (d_nodes d)) && (d_csmap d =? d_ncs d) then [] else [2%N]) ++
@@ -142,7 +145,8 @@ Definition c08_always (d : dump) : list N :=
                         || (existsb (fun y => dn_busy y && is_prefix (dn_path x) (dn_path y)) (d_nodes d)
                             && existsb (fun y => name_eqb (dn_path y) (parent (dn_path x))) (d_nodes d))) (d_nodes d)
    then [] else [6%N]) ++
-  (if d_dnl d =? d_dnlq d then [] else [7%N]).
+  (if d_dnl d =? d_dnlq d then [] else [7%N]) ++
+  (if forallb (fun e => negb (de_norec e) || (de_exp e <=? d_now d)) (flat_map dn_ents (d_nodes d)) then [] else [8%N]).
 
 (* additionally, once every lifetime has elapsed:
    11 PIT empty (no entries, token map, queue)   12 the tree is exactly the prefix closure of the cached names
@@ -155,9 +159,11 @@ Definition c08_quiescent (d : dump) : list N :=
 
 (* the dump of a model state *)
 Definition dump_of (s : st) : dump :=
-  mkdump (npit s) (ncs s) (Z.of_nat (length (tokmap s))) (Z.of_nat (length (heap s))) (Z.of_nat (length (csmap s)))
+  mkdump (now s) (npit s) (ncs s) (Z.of_nat (length (tokmap s))) (Z.of_nat (length (heap s))) (Z.of_nat (length (csmap s)))
          (lruq s) (Z.of_nat (length (locs s))) (Z.of_nat (length (dnl s))) (Z.of_nat (length (dnlq s)))
-         (map (fun nd => mkdn (n_path nd) (map p_q (n_pit nd)) (match n_cs nd with Some _ => true | None => false end)) (nodes s)).
+         (map (fun nd => mkdn (n_path nd)
+                              (map (fun e => mkde (p_q e) (is_nil (p_ins e) && is_nil (p_outs e)) (p_exp e)) (n_pit nd))
+                              (match n_cs nd with Some _ => true | None => false end)) (nodes s)).
 
 (* the cache of a model state: entries in LRU-queue order *)
 Definition cache_of (s : st) : cache :=
